@@ -2,3 +2,4 @@ pub mod boxw;
 pub mod chunk;
 pub mod sodium;
 pub mod stream;
+pub mod verifier;
